@@ -740,11 +740,6 @@ func genHTTP(c *gen.Ctx) httpIn {
 	}
 	q := url.Values{}
 	for _, k := range rt.Query {
-		// v1 `after` is handed to the store as a string and refused there (→ 500 on
-		// the unchanged tree): only used as a mutation, never in the valid template
-		if k == "after" {
-			continue
-		}
 		if r.Intn(3) == 0 {
 			q.Set(k, validQueryValue(r, k))
 		}
